@@ -103,3 +103,56 @@ Proof.
   - cbn [map]. change (sumQ (?a :: ?l)) with (a + sumQ l).
     rewrite IH. rewrite (weight_undistributed w). reflexivity.
 Qed.
+
+(* unknown words (wordnet.synsets(word) empty) are ignored: the run equals the run over the
+   corpus without them, outcome included *)
+Definition known (w : cword) : bool :=
+  match cw_synsets w with [] => false | _ => true end.
+
+Theorem unknown_words_ignored : forall hyp cls fuel d corpus,
+    compute_events hyp cls fuel d corpus = compute_events hyp cls fuel d (filter known corpus).
+Proof.
+  intros hyp cls fuel d. induction corpus as [|w corpus IH].
+  - reflexivity.
+  - cbn [filter]. unfold known at 1. cbn [compute_events].
+    destruct (cw_synsets w) as [|s ss] eqn:Hs.
+    + exact IH.
+    + cbn [compute_events]. rewrite Hs. rewrite IH. reflexivity.
+Qed.
+
+(* the order in which Counter lists the corpus words does not matter *)
+Require Import Coq.Sorting.Permutation.
+
+Lemma sumQ_perm : forall l l', Permutation l l' -> sumQ l == sumQ l'.
+Proof.
+  intros l l' H. induction H as [|x l l' H IH|x y l|l l' l'' H1 IH1 H2 IH2].
+  - reflexivity.
+  - change (sumQ (?a :: ?m)) with (a + sumQ m). rewrite IH. reflexivity.
+  - change (sumQ (y :: x :: l)) with (y + (x + sumQ l)).
+    change (sumQ (x :: y :: l)) with (x + (y + sumQ l)). ring.
+  - rewrite IH1. exact IH2.
+Qed.
+
+Theorem corpus_order_irrelevant_syn : forall hyp cls fuel d corpus corpus' ev ev' smoothing t,
+    compute_events hyp cls fuel d corpus = Ok ev ->
+    compute_events hyp cls fuel d corpus' = Ok ev' ->
+    Permutation corpus corpus' ->
+    entry smoothing ev (Syn t) == entry smoothing ev' (Syn t).
+Proof.
+  intros hyp cls fuel d corpus corpus' ev ev' smoothing t H H' HP.
+  rewrite (compute_synset_entry hyp cls fuel d corpus ev smoothing t H).
+  rewrite (compute_synset_entry hyp cls fuel d corpus' ev' smoothing t H').
+  apply Qplus_inj_l. apply sumQ_perm. apply Permutation_flat_map. exact HP.
+Qed.
+
+Theorem corpus_order_irrelevant_total : forall hyp cls fuel d corpus corpus' ev ev' smoothing k,
+    compute_events hyp cls fuel d corpus = Ok ev ->
+    compute_events hyp cls fuel d corpus' = Ok ev' ->
+    Permutation corpus corpus' -> (0 <= k)%Z ->
+    entry smoothing ev (Total k) == entry smoothing ev' (Total k).
+Proof.
+  intros hyp cls fuel d corpus corpus' ev ev' smoothing k H H' HP Hk.
+  rewrite (compute_total_entry hyp cls fuel d corpus ev smoothing k H Hk).
+  rewrite (compute_total_entry hyp cls fuel d corpus' ev' smoothing k H' Hk).
+  apply Qplus_inj_l. apply sumQ_perm. apply Permutation_flat_map. exact HP.
+Qed.
